@@ -16,6 +16,7 @@ subprocess.check_call(["git", "-C", "/repo", "worktree", "add", "--detach", "-q"
 rec = {}
 try:
     demos = glob.glob(os.path.join(seed, "*_test.go"))
+    os.makedirs(os.path.join(WT, place), exist_ok=True)
     for d in demos:
         shutil.copy(d, os.path.join(WT, place))
     pkg = "./" + place.strip("/") + "/"
